@@ -252,6 +252,29 @@ class Function:
                         self.pos.setdefault(e, (b["id"], i))
                     elif "e" in e and isinstance(e.get("e"), int) and e["e"] >= 0:
                         self.pos.setdefault(("init", e["e"]), (b["id"], i))
+            # the block that ends an `a && b` / `a || b` condition carries the whole expression as terminator condition,
+            # although only the right operand is evaluated there: narrow it to what this block decides
+            for b in self.blocks.values():
+                c = b.get("cond")
+                els = set(e for e in b["el"] if isinstance(e, int))
+                guard = 0
+                while isinstance(c, int) and guard < 20:
+                    guard += 1
+                    x = c
+                    while self.nodes[x]["k"] in TRANSPARENT and self.nodes[x]["c"]:
+                        x = self.nodes[x]["c"][0]
+                    n = self.nodes[x]
+                    if n["k"] == "BinaryOperator" and n.get("op") in ("&&", "||") and len(n["c"]) == 2:
+                        lhs = n["c"][0]
+                        while self.nodes[lhs]["k"] in TRANSPARENT and self.nodes[lhs]["c"]:
+                            lhs = self.nodes[lhs]["c"][0]
+                        if lhs not in els and n["c"][0] not in els:
+                            c = n["c"][1]
+                            continue
+                    break
+                if isinstance(c, int) and c != b.get("cond"):
+                    b["cond_full"] = b["cond"]
+                    b["cond"] = c
             self.preds = {b: [] for b in self.blocks}
             for b in self.blocks.values():
                 for s in b["succ"]:
